@@ -14,6 +14,11 @@
 //        depth-first enumeration of all protocol-respecting op sequences (<= depth ops after
 //        Init) from every cell centre x 6 directions, with snapshots of the navigator state
 //        and memoisation on the protocol state
+//        operations: Find, FindMax(m), MoveI(x), MoveB, Cross, SetDir(d), Safety, SafetyMax(r) = find_safety(r),
+//        MoveTo(p) = move_internal(position), Copy(d) = a second track slot initialised from the track through
+//        DetailedInitializer, which then continues as the track.  An operation that leads to an already discovered
+//        protocol state is followed by one look-ahead call ("la": find_next_step / cross_boundary) on the navigator
+//        state IT produced; every second start re-uses a slot left in a turned-back-on-a-boundary state.
 //   vnav walk <world.json> <seed> <nwalks> <len> <out.ndjson>     seeded random protocol walks
 //   vnav both <world.json> <depth> <maxcalls> <seed> <nwalks> <len> <out.ndjson>   explore, then walk
 //   vnav replay <world.json> <script.json> <out.ndjson>           one given op sequence
@@ -483,17 +488,29 @@ class Nav
   public:
     explicit Nav(Geo const& g) : geo_(g), host_(g.params->host_ref())
     {
-        resize(&state_val_, host_, 1);
+        // slot 0 is the track; slot 1 receives copies (DetailedInitializer) and keeps whatever an
+        // earlier copy left behind
+        resize(&state_val_, host_, 2);
         state_ref_ = state_val_;
         view_ = std::make_unique<OrangeTrackView>(host_, state_ref_, TrackSlotId{0});
+        view1_ = std::make_unique<OrangeTrackView>(host_, state_ref_, TrackSlotId{1});
         depth_ = host_.scalars.max_depth;
     }
     OrangeTrackView& view() { return *view_; }
+    OrangeTrackView& view1() { return *view1_; }
     Geo const& geo() const { return geo_; }
 
-    Snapshot save() const
+    // Initialise slot 1 from the track with a (new) direction through the public DetailedInitializer,
+    // then let the copy BE the track (its state is moved to slot 0, level by level, by this harness)
+    void copy_track(Real3 const& dir)
     {
-        TrackSlotId t{0};
+        *view1_ = OrangeTrackView::DetailedInitializer{*view_, dir};
+        this->restore(this->save(1), 0);
+    }
+
+    Snapshot save(size_type slot = 0) const
+    {
+        TrackSlotId t{slot};
         Snapshot s;
         s.level = state_ref_.level[t];
         s.surface_level = state_ref_.surface_level[t];
@@ -504,7 +521,7 @@ class Nav
         s.next_sense = state_ref_.next_sense[t];
         s.boundary = state_ref_.boundary[t];
         s.next_step = state_ref_.next_step[t];
-        for (size_type i = 0; i < depth_; ++i)
+        for (size_type i = slot * depth_; i < (slot + 1) * depth_; ++i)
         {
             s.pos.push_back(state_ref_.pos[OpaqueId<Real3>{i}]);
             s.dir.push_back(state_ref_.dir[OpaqueId<Real3>{i}]);
@@ -513,9 +530,9 @@ class Nav
         }
         return s;
     }
-    void restore(Snapshot const& s)
+    void restore(Snapshot const& s, size_type slot = 0)
     {
-        TrackSlotId t{0};
+        TrackSlotId t{slot};
         state_ref_.level[t] = s.level;
         state_ref_.surface_level[t] = s.surface_level;
         state_ref_.next_level[t] = s.next_level;
@@ -527,10 +544,11 @@ class Nav
         state_ref_.next_step[t] = s.next_step;
         for (size_type i = 0; i < depth_; ++i)
         {
-            state_ref_.pos[OpaqueId<Real3>{i}] = s.pos[i];
-            state_ref_.dir[OpaqueId<Real3>{i}] = s.dir[i];
-            state_ref_.vol[OpaqueId<LocalVolumeId>{i}] = s.vol[i];
-            state_ref_.universe[OpaqueId<UniverseId>{i}] = s.universe[i];
+            size_type k = slot * depth_ + i;
+            state_ref_.pos[OpaqueId<Real3>{k}] = s.pos[i];
+            state_ref_.dir[OpaqueId<Real3>{k}] = s.dir[i];
+            state_ref_.vol[OpaqueId<LocalVolumeId>{k}] = s.vol[i];
+            state_ref_.universe[OpaqueId<UniverseId>{k}] = s.universe[i];
         }
     }
 
@@ -598,6 +616,7 @@ class Nav
     HostVal<OrangeStateData> state_val_;
     HostRef<OrangeStateData> state_ref_;
     std::unique_ptr<OrangeTrackView> view_;
+    std::unique_ptr<OrangeTrackView> view1_;
     size_type depth_{1};
 };
 
@@ -640,6 +659,11 @@ bool legal(Proto const& a, Op const& o)
         return a.ph == 'I' || ((a.ph == 'm' || a.ph == 'p') && (o.v == a.ref || o.v == neg(a.ref)));
     if (o.e == "Safety")
         return a.ph == 'I';
+    if (o.e == "SafetyMax")
+        return a.ph == 'I' && o.m > 0;
+    if (o.e == "Copy")
+        // a copy taken on a boundary keeps the direction (the boundary state is copied verbatim)
+        return a.ph == 'I' || ((a.ph == 'm' || a.ph == 'p') && o.v == a.dir);
     if (o.e == "MoveTo")
     {
         if (a.ph != 'I' || a.ls < 0 || !all_odd(o.v) || o.v == a.pos)
@@ -747,6 +771,27 @@ json execute(Nav& nav, Proto& a, Op const& o)
         r["s2f"] = big ? 1000000000 : int(std::floor(s2));
         a.ls = (s < 0) ? -1 : (big ? 1000000000 : int(std::floor(s2)));
     }
+    else if (o.e == "SafetyMax")
+    {
+        // the radius-limited overload (the one the multiple-scattering code calls)
+        r["m"] = o.m;
+        real_type s = g.find_safety(real_type(o.m));
+        double s2 = double(s) * double(s);
+        bool big = !(s2 < 1e9);
+        r["sneg"] = s < 0;
+        r["s2c"] = big ? 1000000000 : int(std::ceil(s2));
+        r["s2f"] = big ? 1000000000 : int(std::floor(s2));
+    }
+    else if (o.e == "Copy")
+    {
+        // a second track initialised from this one with a (new) direction, which then IS the track
+        r["dir"] = jv(o.v);
+        nav.copy_track(to_real(o.v));
+        a.dir = o.v;
+        a.has = false;
+        a.nd = 0;
+        a.nb = false;
+    }
     else if (o.e == "MoveTo")
     {
         r["p"] = jv(o.v);
@@ -808,6 +853,40 @@ std::vector<Op> alphabet(Proto const& a, bool rich)
         push(o);
     }
     push(Op{"Safety"});
+    {
+        // radius-limited safety: a radius below, at and above typical distances
+        Op o{"SafetyMax"};
+        o.m = 2;
+        push(o);
+        o.m = 6;
+        push(o);
+        if (rich)
+        {
+            o.m = 1;
+            push(o);
+            o.m = 4;
+            push(o);
+        }
+    }
+    {
+        // copies: same direction always; in the interior also the reversal and one turn
+        Op o{"Copy"};
+        o.v = a.dir;
+        push(o);
+        if (a.ph == 'I')
+        {
+            o.v = neg(a.dir);
+            push(o);
+            o.v = I3{a.dir[1], a.dir[2], a.dir[0]};
+            push(o);
+            if (rich)
+                for (auto const& d : dirs6)
+                {
+                    o.v = d;
+                    push(o);
+                }
+        }
+    }
     for (auto const& d : dirs6)
     {
         // exhaustive mode, interior: all five other directions from a fresh state, only the
@@ -858,8 +937,16 @@ struct Explorer
     int depth;
     long maxcalls;
     long calls{0};
+    long lookaheads{0};
     bool truncated{false};
     std::vector<Node> nodes;
+
+    // operations that rewrite navigator state wholesale (or leave flags behind) get the look-ahead call
+    static bool lookahead(Op const& o)
+    {
+        return o.e == "SetDir" || o.e == "Copy" || o.e == "MoveTo" || o.e == "Cross" || o.e == "MoveI"
+               || o.e == "MoveB";
+    }
     std::map<decltype(Proto{}.key()), std::size_t> index;
     std::vector<std::pair<Op, std::size_t>> roots;
 
@@ -939,6 +1026,25 @@ struct Explorer
                 visit(nd.kids[kid].second, k + 1);
                 ++kid;
             }
+            else if (b.ph != 'O' && lookahead(ops[oi]))
+            {
+                // The operation led to a protocol state that was discovered along another path: its
+                // successors are executed from THAT path's navigator state.  What this operation left
+                // behind in the navigator beyond the protocol state (level-local positions and directions,
+                // boundary flag, surface sense, cached step) is exposed by one more call right here.
+                Op probe{b.ph == 'm' ? "Cross" : "Find"};
+                if (legal(b, probe))
+                {
+                    json r2 = execute(nav, b, probe);
+                    r2["k"] = k + 1;
+                    r2["j"] = k + 1;
+                    r2["n"] = k + 1;
+                    r2["la"] = true;
+                    out(r2);
+                    ++calls;
+                    ++lookaheads;
+                }
+            }
         }
     }
 };
@@ -951,19 +1057,44 @@ int run_explore(Geo const& geo, int depth, long maxcalls, verif::NdjsonWriter& o
     int maxdepth = 0;
     for (auto const& n : ex.nodes)
         maxdepth = std::max(maxdepth, n.depth);
+    // A track slot is re-used: before every second start the slot is left in the state of an earlier track that
+    // had turned back on a boundary (re-entrant flag set, surface state present), taken from the discovery pass;
+    // the initialisation must wipe it, which the look-ahead search right after the Init exposes.
+    Snapshot const* turned = nullptr;
+    for (auto const& n : ex.nodes)
+        if ((n.a.ph == 'm' || n.a.ph == 'p') && n.a.dir == neg(n.a.ref))
+        {
+            turned = &n.snap;
+            break;
+        }
+    std::size_t ri = 0;
     for (auto const& rt : ex.roots)
     {
+        if (turned && (ri++ % 2 == 0))
+            nav.restore(*turned);
         Proto a;
         json r = execute(nav, a, rt.first);
         r["k"] = 0;
         r["j"] = 1;
         r["n"] = 0;
         out(r);
+        if (a.ph != 'O')
+        {
+            Proto b = a;
+            json r2 = execute(nav, b, Op{"Find"});
+            r2["k"] = 1;
+            r2["j"] = 2;
+            r2["n"] = 1;
+            r2["la"] = true;
+            out(r2);
+            ++ex.calls;
+            ++ex.lookaheads;
+        }
         ex.visit(rt.second, 1);
     }
     std::cerr << "explore " << geo.name << ": inits " << ex.roots.size() << " calls " << ex.calls << " states "
               << ex.nodes.size() << " bfsdepth " << maxdepth << (ex.truncated ? " TRUNCATED" : "") << std::endl;
-    out(json{{"e", "Stats"}, {"inits", ex.roots.size()}, {"calls", ex.calls}, {"states", ex.nodes.size()},
+    out(json{{"e", "Stats"}, {"inits", ex.roots.size()}, {"calls", ex.calls}, {"lookaheads", ex.lookaheads}, {"states", ex.nodes.size()},
              {"bfsdepth", maxdepth}, {"truncated", ex.truncated}, {"bound", depth}});
     return 0;
 }
@@ -1020,6 +1151,10 @@ int run_walk(Geo const& geo, unsigned long seed, int nwalks, int len, verif::Ndj
                         wt = 2;
                     else if (c.e == "Safety")
                         wt = a.ls < 0 ? 3 : 0;
+                    else if (c.e == "SafetyMax")
+                        wt = 1;
+                    else if (c.e == "Copy")
+                        wt = (a.ph == 'I') ? 1 : 4;
                     else if (c.e == "MoveTo")
                         wt = 2;
                     w.push_back(wt);
@@ -1237,6 +1372,45 @@ struct FixtureDriver
         out(r);
         return s;
     }
+    // the radius-limited overload (the one the multiple-scattering code calls)
+    double safety_max(double m)
+    {
+        json r{{"e", "SafetyMax"}, {"m", m}};
+        double s = nav.view().find_safety(real_type(m));
+        r["s"] = std::isfinite(s) ? json(s) : json(nullptr);
+        observe(r);
+        out(r);
+        return s;
+    }
+    // move_internal(position): legal inside the safety sphere reported at this point
+    void move_to(FProto& a, Real3 const& p)
+    {
+        json r{{"e", "MoveTo"}, {"p", jr(p)}};
+        nav.view().move_internal(p);
+        observe(r);
+        out(r);
+        a.ph = 'I';
+        a.has = false;
+        a.nb = false;
+        a.nd = 0;
+    }
+    // a second track initialised from this one (DetailedInitializer), which then is the track
+    void copy(FProto& a, Real3 const& d)
+    {
+        json r{{"e", "Copy"}, {"dir", jr(d)}};
+        nav.copy_track(d);
+        observe(r);
+        out(r);
+        a.has = false;
+        a.nb = false;
+        a.nd = 0;
+    }
+    Real3 point_within(Real3 const& c, double radius)
+    {
+        Real3 u = random_dir();
+        double f = radius * std::cbrt(u01());
+        return Real3{c[0] + f * u[0], c[1] + f * u[1], c[2] + f * u[2]};
+    }
 
     void ray(int hid)
     {
@@ -1261,9 +1435,26 @@ struct FixtureDriver
         if (!init(random_pos(), random_dir(), a, hid, "walk"))
             return;
         double du = 0;  // last unlimited distance in this protocol state (0: none)
+        double ls = 0;  // safety reported at the current position (0: none)
         for (int step = 0; step < len && a.ph != 'O'; ++step)
         {
             double c = u01();
+            if (u01() < 0.06)
+            {
+                // hand the track over to a copy: any direction in the interior, the same one on a boundary
+                copy(a, a.ph == 'I' ? random_dir() : nav.view().dir());
+                du = 0;
+                continue;
+            }
+            if (a.ph == 'I' && ls > 0 && u01() < 0.5)
+            {
+                move_to(a, point_within(nav.view().pos(), 0.95 * ls));
+                ls = 0;
+                du = 0;
+                continue;
+            }
+            if (a.ph != 'I')
+                ls = 0;
             if (a.ph == 'm')
             {
                 if (c < 0.45)
@@ -1307,6 +1498,7 @@ struct FixtureDriver
                     double x = (a.nb || c < 0.55) ? a.nd * (0.05 + 0.9 * u01()) : a.nd;
                     move_i(a, x);
                     du = 0;
+                    ls = 0;
                 }
                 else if (c < 0.8)
                 {
@@ -1319,7 +1511,10 @@ struct FixtureDriver
                 }
                 else if (a.ph == 'I')
                 {
-                    safety();
+                    double s = safety();
+                    ls = (std::isfinite(s) && s > 0) ? s : 0;
+                    if (ls > 0 && u01() < 0.5)
+                        safety_max(ls * (0.2 + 3 * u01()));
                 }
                 else
                 {
@@ -1394,6 +1589,8 @@ struct FixtureDriver
             }
             Real3 arr = nav.view().dir();
             move_b(a);
+            if (u01() < 0.15)
+                copy(a, nav.view().dir());
             if (u01() < 0.75)
             {
                 set_dir(a, turn_dir(arr));
@@ -1403,6 +1600,8 @@ struct FixtureDriver
             cross(a);
             if (a.ph == 'O')
                 break;
+            if (u01() < 0.15)
+                copy(a, nav.view().dir());
             if (u01() < 0.3)
             {
                 // turn on the crossed boundary; a reversal gives a zero step: turn again
@@ -1432,7 +1631,19 @@ struct FixtureDriver
                 p[k] = planned->at("p").at(k).get<double>();
         if (!init(p, random_dir(), a, hid, "probe"))
             return;
-        safety();
+        double s0 = safety();
+        if (std::isfinite(s0) && s0 > 0)
+        {
+            // radius-limited searches below and above the unlimited answer, and far beyond it
+            safety_max(s0 * (0.2 + 0.7 * u01()));
+            safety_max(s0 * (1.2 + 3 * u01()));
+            safety_max(s0 * 40 + 1);
+        }
+        else
+        {
+            safety_max(0.5 + u01());
+            safety_max(1e3);
+        }
         int n = 0;
         if (planned)
             for (auto const& dj : planned->at("dirs"))
@@ -1455,6 +1666,17 @@ struct FixtureDriver
         {
             set_dir(a, random_dir());
             find(a, 0);
+        }
+        if (std::isfinite(s0) && s0 > 0 && u01() < 0.6)
+        {
+            // move_internal(position) to a point of the safety sphere, then look around from there
+            move_to(a, point_within(p, 0.95 * s0));
+            safety();
+            for (int i = 0; i < 10; ++i)
+            {
+                set_dir(a, random_dir());
+                find(a, 0);
+            }
         }
     }
 };
